@@ -37,6 +37,58 @@ INFORMATIONAL = {
 }
 
 
+
+# ------------------------------------------------------------------ locals by role (no rule below depends on what a local is called)
+
+def _toml_root(fn):
+    """the local holding the parsed configuration: assigned from <x>.read() / tomlkit.loads(..) / tomlkit.parse(..)"""
+    for n in sorted([x for x in ast.walk(fn) if isinstance(x, ast.Assign)], key=lambda x: x.lineno):
+        if isinstance(n.targets[0], ast.Name) and isinstance(n.value, ast.Call) and isinstance(n.value.func, ast.Attribute) and n.value.func.attr in ("read", "loads", "parse"):
+            return n.targets[0].id
+    return "content"
+
+
+def _option_origins(h):
+    """{local: option name} for InitCommand.handle: x = self.option("o"), then every re-assignment of x from x, every local built
+    in a loop over an option local, and every local assigned from an expression over locals of one single origin."""
+    org = {}
+    stmts = sorted([n for n in ast.walk(h) if isinstance(n, (ast.Assign, ast.For))], key=lambda n: n.lineno)
+    for n in stmts:
+        if isinstance(n, ast.Assign) and len(n.targets) == 1 and isinstance(n.targets[0], ast.Name):
+            t, v = n.targets[0].id, n.value
+            if isinstance(v, ast.Call) and ast.unparse(v.func) == "self.option" and v.args and isinstance(v.args[0], ast.Constant):
+                org[t] = v.args[0].value
+            elif t not in org:
+                used = {x.id for x in ast.walk(v) if isinstance(x, ast.Name) and x.id in org}
+                if len({org[u] for u in used}) == 1:
+                    org[t] = org[next(iter(used))]
+        elif isinstance(n, ast.For) and isinstance(n.iter, ast.Name) and n.iter.id in org:
+            for x in ast.walk(n):
+                b = None
+                if isinstance(x, ast.Assign) and isinstance(x.targets[0], ast.Subscript):
+                    b = x.targets[0]
+                elif isinstance(x, ast.Call) and isinstance(x.func, ast.Attribute) and x.func.attr in ("append", "setdefault", "update", "extend"):
+                    b = x.func.value
+                while isinstance(b, ast.Subscript):
+                    b = b.value
+                if isinstance(b, ast.Name) and b.id not in org and not any(isinstance(a, ast.Assign) and isinstance(a.targets[0], ast.Name) and a.targets[0].id == b.id for a in ast.walk(n)):
+                    org[b.id] = org[n.iter.id]
+    return org
+
+
+def _writer_locals(eh):
+    """{option: local} in ExampleCommand.handle: the local interpolated right after `--<option>='` in the composed command line"""
+    out = {}
+    for n in ast.walk(eh):
+        if isinstance(n, ast.JoinedStr):
+            for a, b in zip(n.values, n.values[1:]):
+                if isinstance(a, ast.Constant) and isinstance(b, ast.FormattedValue) and isinstance(b.value, ast.Name):
+                    m = re.search(r"--([a-z][a-z\-]+)='?$", str(a.value))
+                    if m:
+                        out[m.group(1)] = b.value.id
+    return out
+
+
 def _toml_paths(text):
     import tomlkit
     doc = tomlkit.loads(text)
@@ -156,7 +208,7 @@ def _r9(ctx, pkg):
     mod = pkg.modules[CONF]
     cfn = pkg.cls("BaseConfiguration").methods["content"]
     n = 0
-    var = {"content": ""}
+    var = {_toml_root(cfn): ""}
 
     def path_of(e):
         if isinstance(e, ast.Name) and e.id in var:
@@ -199,12 +251,12 @@ def _r1(ctx, pkg):
         return
     schema = _toml_paths(default)
     cfn = pkg.cls("BaseConfiguration").methods["content"]
-    _, writes, _ = _alias_paths(cfn, {"content": ""})
+    _, writes, _ = _alias_paths(cfn, {_toml_root(cfn): ""})
     rfn = pkg.method("RenderCommand", "handle")
     efn = pkg.method("ExtendCommand", "handle")
     ctx.saw(RENDER, "RenderCommand.handle"), ctx.saw(EXTEND, "ExtendCommand.handle")
-    reads, rwrites, _ = _alias_paths(rfn, {"content": ""})
-    ereads, _, _ = _alias_paths(efn, {"content": ""})
+    reads, rwrites, _ = _alias_paths(rfn, {_toml_root(rfn): ""})
+    ereads, _, _ = _alias_paths(efn, {_toml_root(efn): ""})
     allreads = dict(reads)
     allreads.update(ereads)
     tables = {p for p in schema if any(q.startswith(p + ".") for q in schema)}
@@ -229,6 +281,21 @@ def _r1(ctx, pkg):
     ctx.floor("R1", "key paths written", len(writes), 30)
 
 
+KW_OPTION = {"description": "description", "load": "loading", "element": "elements", "pseudo_element": "pseudo-elements", "replacement": "element-replacement",
+             "allowed_species": "allowed-species", "required_species": "extra-species", "binding_energy": "binding", "photon_yield": "yield",
+             "filenames": "network-files", "formats": "file-formats", "heating": "heating", "cooling": "cooling", "shielding": "shielding",
+             "grain_model": "grain-model", "rate_modifier": "rate-modifier", "ode_modifier": "ode-modifier", "solver": "solver", "device": "device", "method": "method"}
+
+
+def _kwargs_dict(fn, callee, kw):
+    """keys of the dict display assigned to the local that `callee(..., kw=<local>)` receives"""
+    name = next((k.value.id for c in ast.walk(fn) if isinstance(c, ast.Call) and ast.unparse(c.func) == callee for k in c.keywords if k.arg == kw and isinstance(k.value, ast.Name)), None)
+    for n in ast.walk(fn):
+        if isinstance(n, ast.Assign) and isinstance(n.targets[0], ast.Name) and n.targets[0].id == name and isinstance(n.value, ast.Dict):
+            return {k.value for k in n.value.keys if isinstance(k, ast.Constant)}
+    return set()
+
+
 def _r2(ctx, pkg):
     init = pkg.cls("BaseConfiguration").methods["__init__"]
     params = [a.arg for a in init.args.args if a.arg != "self"]
@@ -245,27 +312,27 @@ def _r2(ctx, pkg):
         ctx.check(not unknown, "R2", "InitCommand passes only known keywords", (INIT, c.lineno), "every keyword is a parameter of BaseConfiguration", found=str(unknown))
         ctx.check(not missing, "R2", "InitCommand passes every setting", (INIT, c.lineno), f"all {len(params)} settings of BaseConfiguration are supplied by the init command", found=f"missing {missing}")
         # each keyword receives the local of the matching option (name agreement, e.g. required_species=extra_species)
-        pairs = {k.arg: ast.unparse(k.value) for k in c.keywords}
-        want = {"load": "loading", "required_species": "extra_species", "binding_energy": "binding", "photon_yield": "yields", "filenames": "network"}
-        for k, v in pairs.items():
-            exp = want.get(k, k)
-            ctx.check(v == exp, "R2", f"InitCommand:{k}=", (INIT, c.lineno), f"`{k}` receives the value parsed for it", expected=exp, found=v)
+        org = _option_origins(h)
+        for k in c.keywords:
+            if k.arg == "species_kwargs":
+                continue        # a dictionary of three option values: its keys are decided just below
+            exp = KW_OPTION.get(k.arg)
+            got = org.get(k.value.id) if isinstance(k.value, ast.Name) else None
+            if exp is None:
+                ctx.unrec("R2", f"InitCommand:{k.arg}=", (INIT, c.lineno), f"no option is on record for the setting `{k.arg}`")
+            else:
+                ctx.check(got == exp, "R2", f"InitCommand:{k.arg}=", (INIT, c.lineno), f"`{k.arg}` receives the value parsed from --{exp}",
+                          expected=f"a local derived from self.option({exp!r})", found=f"{ast.unparse(k.value)} (from --{got})")
     # species_kwargs keys
     cfn = pkg.cls("BaseConfiguration").methods["content"]
     looked = []
     for n in ast.walk(cfn):
         if isinstance(n, ast.Call) and isinstance(n.func, ast.Attribute) and n.func.attr == "get" and ast.unparse(n.func.value) == "self._species_kwargs" and n.args:
             looked.append((n.args[0].value, n.lineno))
-    stored = set()
-    for n in ast.walk(h):
-        if isinstance(n, ast.Assign) and isinstance(n.targets[0], ast.Name) and n.targets[0].id == "species_kwargs" and isinstance(n.value, ast.Dict):
-            stored = {k.value for k in n.value.keys if isinstance(k, ast.Constant)}
+    stored = _kwargs_dict(h, "BaseConfiguration", "species_kwargs")
     sp_params = {a.arg for a in pkg.method("Species", "__init__").args.args} - {"self", "name"}
     rh = pkg.method("RenderCommand", "handle")
-    rstored = set()
-    for n in ast.walk(rh):
-        if isinstance(n, ast.Assign) and isinstance(n.targets[0], ast.Name) and n.targets[0].id == "species_kwargs" and isinstance(n.value, ast.Dict):
-            rstored = {k.value for k in n.value.keys if isinstance(k, ast.Constant)}
+    rstored = _kwargs_dict(rh, "Network", "species_kwargs")
     ctx.floor("R2", "species_kwargs lookups", len(looked), 3, (CONF, cfn.lineno))
     for key, line in looked:
         ok = key in stored and key in sp_params
@@ -280,7 +347,8 @@ def _r2(ctx, pkg):
 def _r3(ctx, pkg):
     h = pkg.method("ExampleCommand", "handle")
     ctx.saw(EXAMPLE, "ExampleCommand.handle")
-    attrs = sorted({n.attr for n in ast.walk(h) if isinstance(n, ast.Attribute) and isinstance(n.value, ast.Name) and n.value.id == "examplemod"})
+    modvar = next((n.targets[0].id for n in ast.walk(h) if isinstance(n, ast.Assign) and isinstance(n.targets[0], ast.Name) and "import_module" in ast.unparse(n.value)), "examplemod")
+    attrs = sorted({n.attr for n in ast.walk(h) if isinstance(n, ast.Attribute) and isinstance(n.value, ast.Name) and n.value.id == modvar})
     mods = [f for f in pkg.files if f.startswith("naunet/examples/") and f.endswith("__init__.py") and f != "naunet/examples/__init__.py"]
     ctx.floor("R3", "example modules", len(mods), 6)
     for f in mods:
@@ -321,51 +389,42 @@ def _seps_writer(h):
     return out
 
 
-def _seps_reader(h, local):
-    """separators `local` (and comprehension variables derived from it) is split at, in InitCommand.handle"""
+def _seps_reader(h, opt, org):
+    """separators at which the locals derived from option `opt` are split in InitCommand.handle"""
     seps = set()
-    src = ast.unparse(h)
-    start = None
-    stmts = sorted([n for n in ast.walk(h) if isinstance(n, (ast.Assign, ast.For))], key=lambda n: n.lineno)
-    active = False
-    for n in stmts:
-        s = ast.unparse(n)
-        if isinstance(n, ast.Assign) and isinstance(n.targets[0], ast.Name) and n.targets[0].id == local:
-            active = True
-            for c in ast.walk(n.value):
-                if isinstance(c, ast.Call) and isinstance(c.func, ast.Attribute) and c.func.attr == "split" and c.args and isinstance(c.args[0], ast.Constant):
-                    seps.add(c.args[0].value)
-        elif isinstance(n, ast.For) and local + "_str" in ast.unparse(n.iter) or (isinstance(n, ast.For) and ast.unparse(n.iter) == local):
-            for c in ast.walk(n):
+    mine = {l for l, o in org.items() if o == opt}
+    for n in sorted([n for n in ast.walk(h) if isinstance(n, (ast.Assign, ast.For))], key=lambda n: n.lineno):
+        if isinstance(n, ast.Assign) and isinstance(n.targets[0], ast.Name) and n.targets[0].id in mine:
+            scope = [n.value]
+        elif isinstance(n, ast.For) and isinstance(n.iter, ast.Name) and n.iter.id in mine:
+            scope = [n]
+        else:
+            continue
+        for sc in scope:
+            for c in ast.walk(sc):
                 if isinstance(c, ast.Call) and isinstance(c.func, ast.Attribute) and c.func.attr == "split" and c.args and isinstance(c.args[0], ast.Constant):
                     seps.add(c.args[0].value)
     return seps
 
 
-OPTION_FLOW = {
-    # option: (writer local in example.py, reader local in init.py, expected separators)
-    "element-replacement": ("replacestr", "replacement", {",", ":"}),
-    "shielding": ("shieldingstr", "shielding", {",", ":"}),
-    "binding": ("bindingstr", "binding", {",", "="}),
-    "yield": ("yieldstr", "yields", {",", "="}),
-    "rate-modifier": ("ratemodifierstr", "rate_modifier", {",", ":"}),
-    "ode-modifier": ("odemodifierstr", "ode_modifier", {";", ":", ","}),
-}
+OPTION_SEPS = {"element-replacement": {",", ":"}, "shielding": {",", ":"}, "binding": {",", "="}, "yield": {",", "="}, "rate-modifier": {",", ":"}, "ode-modifier": {";", ":", ","}}
 
 
 def _r4_r6_r7(ctx, pkg):
     eh = pkg.method("ExampleCommand", "handle")
     ih = pkg.method("InitCommand", "handle")
     w = _seps_writer(eh)
-    for opt, (wl, rl, exp) in OPTION_FLOW.items():
-        ws = {c for c in w.get(wl, set()) if c in ":;,="}
-        rs = _seps_reader(ih, rl)
+    wl_of = _writer_locals(eh)
+    org = _option_origins(ih)
+    for opt, exp in OPTION_SEPS.items():
+        ws = {c for c in w.get(wl_of.get(opt), set()) if c in ":;,="}
+        rs = _seps_reader(ih, opt, org)
         ctx.check(ws == rs == exp, "R4", f"--{opt} separators", (INIT, ih.lineno),
                   f"the example command joins with {sorted(exp)} and the init command splits at the same characters" if ws == rs == exp else
                   f"separator mismatch for --{opt}: written with {sorted(ws)}, split at {sorted(rs)}", expected=str(sorted(exp)), found=f"writer {sorted(ws)}, reader {sorted(rs)}")
     # R6 lossy split of free text (rate / ODE modifier expressions)
     n6 = 0
-    for local in ("rate_modifier", "ode_modifier"):
+    for local, opt6 in [(l, o) for l, o in sorted(org.items()) if o in ("rate-modifier", "ode-modifier")]:
         # statements that split pieces of this option and index the result by constants
         for n in ast.walk(ih):
             if isinstance(n, ast.Assign) and isinstance(n.targets[0], ast.Name) and n.targets[0].id == local:
@@ -373,26 +432,27 @@ def _r4_r6_r7(ctx, pkg):
                     if isinstance(c, ast.Call) and isinstance(c.func, ast.Attribute) and c.func.attr == "split" and c.args and isinstance(c.args[0], ast.Constant) and c.args[0].value == ":":
                         n6 += 1
                         maxsplit = len(c.args) > 1 or any(k.arg == "maxsplit" for k in c.keywords)
-                        ctx.check(maxsplit, "R6", f"--{local.replace('_', '-')}: split(':')", (INIT, n.lineno),
+                        ctx.check(maxsplit, "R6", f"--{opt6}: split(':')", (INIT, n.lineno),
                                   "the expression after the first ':' is kept whole (maxsplit)" if maxsplit else
                                   "the option value is cut at every ':' and the pieces are read by index [0], [1]: an expression containing ':' (a C conditional) is silently truncated",
                                   expected="split(':', 1)", found=ast.unparse(c))
     # ode-modifier: tuple unpacking raises on a surplus piece (not silent)
-    unp = [n for n in ast.walk(ih) if isinstance(n, ast.Assign) and isinstance(n.targets[0], ast.Tuple) and "om.split(':')" in ast.unparse(n.value)]
+    unp = [n for n in ast.walk(ih) if isinstance(n, ast.Assign) and isinstance(n.targets[0], ast.Tuple) and re.fullmatch(r"\w+\.split\(':'\)", ast.unparse(n.value))]
     ctx.check(len(unp) == 1 and len(unp[0].targets[0].elts) == 2, "R6", "--ode-modifier: key/value unpacking", (INIT, unp[0].lineno if unp else ih.lineno),
               "`key, value = om.split(':')` raises on a surplus ':' instead of dropping text")
     ctx.floor("R6", "free-text splits", n6, 1, (INIT, ih.lineno))
     # R7 fresh lists per ODE-modifier entry
-    loops = [n for n in ast.walk(ih) if isinstance(n, ast.For) and "ode_modifier_str" in ast.unparse(n.iter)]
+    loops = [n for n in ast.walk(ih) if isinstance(n, ast.For) and isinstance(n.iter, ast.Name) and org.get(n.iter.id) == "ode-modifier"]
+    D = next((k.value.id for c in ast.walk(ih) if isinstance(c, ast.Call) for k in c.keywords if k.arg == "ode_modifier" and isinstance(k.value, ast.Name)), "ode_modifier")
     ok = False
     found = ""
     if loops:
         lp = loops[0]
         creates = []
         for n in ast.walk(lp):
-            if isinstance(n, ast.Assign) and isinstance(n.targets[0], ast.Subscript) and ast.unparse(n.targets[0].value) == "ode_modifier":
+            if isinstance(n, ast.Assign) and isinstance(n.targets[0], ast.Subscript) and ast.unparse(n.targets[0].value) == D:
                 creates.append(n.value)
-            if isinstance(n, ast.Call) and isinstance(n.func, ast.Attribute) and n.func.attr == "setdefault" and ast.unparse(n.func.value) == "ode_modifier":
+            if isinstance(n, ast.Call) and isinstance(n.func, ast.Attribute) and n.func.attr == "setdefault" and ast.unparse(n.func.value) == D:
                 creates.append(n.args[1] if len(n.args) > 1 else n)
         found = "; ".join(ast.unparse(c)[:70] for c in creates)
         ok = bool(creates) and all(isinstance(c, ast.Dict) and all(isinstance(v, ast.List) for v in c.values) for c in creates)
@@ -406,7 +466,8 @@ def _r5(ctx, pkg):
     ih = pkg.method("InitCommand", "handle")
     table = None
     for n in ast.walk(ih):
-        if isinstance(n, ast.Assign) and isinstance(n.targets[0], ast.Name) and n.targets[0].id == "allowed_method":
+        if isinstance(n, ast.Assign) and isinstance(n.targets[0], ast.Name) and isinstance(n.value, ast.Dict) and \
+                {"cvode", "odeint"} & {k.value for k in n.value.keys if isinstance(k, ast.Constant)}:
             table = ast.literal_eval(n.value)
     if table is None:
         ctx.missing("R5", "allowed_method", (INIT, ih.lineno), "solver/method table not found")
@@ -429,14 +490,15 @@ def _r5(ctx, pkg):
     eh = pkg.method("ExampleCommand", "handle")
     cases = None
     for n in ast.walk(eh):
-        if isinstance(n, ast.Assign) and isinstance(n.targets[0], ast.Name) and n.targets[0].id == "networklist":
+        if isinstance(n, ast.Assign) and isinstance(n.targets[0], ast.Name) and isinstance(n.value, (ast.List, ast.Tuple)) and n.value.elts and \
+                all(isinstance(e, ast.Constant) and isinstance(e.value, str) and "/" in e.value for e in n.value.elts):
             cases = ast.literal_eval(n.value)
     allm = {m for _, _, m in methods}
     for c in sorted({x.split("/")[-1] for x in (cases or [])}):
         ctx.check(c in allm, "R5", f"example case suffix {c}", (EXAMPLE, eh.lineno), f"`{c}` is a method of init.py's table")
     ctx.floor("R5", "example cases", len(cases or []), 20)
     src = ast.unparse(eh)
-    ctx.check("solver = 'odeint' if 'rosenbrock4' in case else 'cvode'" in src and "device = 'gpu' if 'cusparse' in case else 'cpu'" in src, "R5", "example solver/device derivation", (EXAMPLE, eh.lineno),
+    ctx.check(re.search(r"\w+ = 'odeint' if 'rosenbrock4' in \w+ else 'cvode'", src) is not None and re.search(r"\w+ = 'gpu' if 'cusparse' in \w+ else 'cpu'", src) is not None, "R5", "example solver/device derivation", (EXAMPLE, eh.lineno),
               "solver and device are derived from the method suffix consistently with the table")
 
 
@@ -462,18 +524,26 @@ def _r8(ctx, pkg):
                   "previous tables and configured values silently fall back to the built-in ones",
                   expected="installation before the first Species(..)")
     # the values installed are the ones read from the file
-    src = ast.unparse(rh)
-    ctx.check("Species._replacement = replacement" in src and "Species.set_known_elements(element)" in src and "Species.set_known_pseudoelements(pseudo_element)" in src,
-              "R8", "RenderCommand installs the configured tables", (RENDER, rh.lineno), "the installed tables are chemistry.element.{replacement, elements, pseudo_elements} of the file")
+    _, _, var = _alias_paths(rh, {_toml_root(rh): ""})
+    inst = {}
+    for n in ast.walk(rh):
+        if isinstance(n, ast.Assign) and ast.unparse(n.targets[0]) == "Species._replacement" and isinstance(n.value, ast.Name):
+            inst["replacement"] = var.get(n.value.id)
+        if isinstance(n, ast.Call) and ast.unparse(n.func) in ("Species.set_known_elements", "Species.set_known_pseudoelements") and n.args and isinstance(n.args[0], ast.Name):
+            inst["elements" if n.func.attr == "set_known_elements" else "pseudo_elements"] = var.get(n.args[0].id)
+    ctx.check(inst == {k: f"chemistry.element.{k}" for k in ("replacement", "elements", "pseudo_elements")},
+              "R8", "RenderCommand installs the configured tables", (RENDER, rh.lineno), "the installed tables are chemistry.element.{replacement, elements, pseudo_elements} of the file", found=str(inst))
     # Network(...) receives every setting read
     calls = [c for c in ast.walk(rh) if isinstance(c, ast.Call) and ast.unparse(c.func) == "Network"]
     if calls:
-        kw = {k.arg: ast.unparse(k.value) for k in calls[0].keywords}
-        want = {"filelist": "files", "fileformats": "formats", "elements": "element", "pseudo_elements": "pseudo_element", "allowed_species": "allowed_species",
-                "required_species": "extra_species", "species_kwargs": "species_kwargs", "grain_model": "grain_model", "heating": "heating", "cooling": "cooling",
-                "shielding": "shielding", "rate_modifier": "rate_modifier", "ode_modifier": "ode_modifier"}
+        kw = {k.arg: (var.get(k.value.id) if isinstance(k.value, ast.Name) else None) for k in calls[0].keywords}
+        want = {"filelist": "chemistry.network.files", "fileformats": "chemistry.network.formats", "elements": "chemistry.element.elements", "pseudo_elements": "chemistry.element.pseudo_elements",
+                "allowed_species": "chemistry.species.allowed", "required_species": "chemistry.species.required", "grain_model": "chemistry.grain.model",
+                "heating": "chemistry.thermal.heating", "cooling": "chemistry.thermal.cooling", "shielding": "chemistry.shielding", "rate_modifier": "chemistry.rate_modifier",
+                "ode_modifier": "chemistry.ode_modifier"}
         for k, v in want.items():
             ctx.check(kw.get(k) == v, "R8", f"Network({k}=)", (RENDER, calls[0].lineno), f"Network receives the configured `{v}` as `{k}`", expected=v, found=str(kw.get(k)))
+        ctx.check(any(k.arg == "species_kwargs" for k in calls[0].keywords), "R8", "Network(species_kwargs=)", (RENDER, calls[0].lineno), "Network receives the symbol keywords")
 
 
 MUTANTS = [
